@@ -111,8 +111,10 @@ class Prov:
         key = (b.id, local)
         if key in self.memo:
             return self.memo[key]
-        if key in self.stack or depth > self.max_depth:
+        if key in self.stack:
             return set()
+        if depth > self.max_depth:
+            return {("UNKNOWN", "depth-cut")}     # never silently "no source": the caller must treat it as not proven
         self.stack.add(key)
         out = set()
         for r in dataflow.roots(b, local):
